@@ -308,3 +308,161 @@ Proof.
     exists fuel', gf. split; [exact Hrun|]. split; [exact F1|]. split; [rewrite F2; exact (Rg_out _ _ _ _ _ _ _ _ _ HG2)|]. split; [exact Ks|].
     intros c0 w Hw. unfold cell_get. rewrite F3. exact (Kc c0 w Hw).
 Qed.
+
+(* ================================================================ the code generator on a function literal *)
+Section FnCode.
+Variable path : str.
+
+Definition ftail (cb : list citem) : list citem := if ends_in_ret cb then [] else [I OP_VOID []; I OP_RET []].
+
+Lemma cexpr_EFn_eq : forall d ps body st, cexpr path d (EFn ps body) st =
+  (let '(cb, st) := cblockT path (S d) None body st in
+   let name := fn_name path (fid st) in
+   ([I OP_MAKE_FUNCTION (name :: free_vars ps body)],
+    {| fid := S (fid st); lreg := lreg st;
+       fbuf := fbuf st ++ [(name, strip (map CI (pcodeP 0 ps) ++ cb ++ ftail cb))] |})).
+Proof.
+  intros d ps body st.
+  change (cexpr path d (EFn ps body) st) with
+    (let '(cb, st) :=
+       (fix cbody (l : list stmt) (st : cst) {struct l} : list citem * cst :=
+          match l with
+          | [] => ([], st)
+          | s :: l => let '(cs, st) := cstmt path (S d) None s st in
+                      let '(cl, st) := cbody l st in (cs ++ cl, st)
+          end) body st in
+     let cb := if ends_in_ret cb then cb else cb ++ [I OP_VOID []; I OP_RET []] in
+     let name := fn_name path (fid st) in
+     ([I OP_MAKE_FUNCTION (name :: free_vars ps body)],
+      {| fid := S (fid st); lreg := lreg st;
+         fbuf := fbuf st ++ [(name, strip ((fix cparams (k : nat) (l : list str) : list citem :=
+                                              match l with [] => [] | x :: l => I OP_ARG [sN k] :: I OP_STORE [x] :: cparams (S k) l end) 0 ps ++ cb))] |})).
+  assert (E1 : forall l st0,
+            (fix cbody (l : list stmt) (st : cst) {struct l} : list citem * cst :=
+               match l with
+               | [] => ([], st)
+               | s :: l => let '(cs, st) := cstmt path (S d) None s st in
+                           let '(cl, st) := cbody l st in (cs ++ cl, st)
+               end) l st0 = cblockT path (S d) None l st0).
+  { induction l as [|s l IH]; intros st0; [reflexivity|]. cbn [cblockT]. destruct (cstmt path (S d) None s st0) as [cs st1].
+    rewrite IH. reflexivity. }
+  assert (E2 : forall l k,
+            (fix cparams (k : nat) (l : list str) : list citem :=
+               match l with [] => [] | x :: l => I OP_ARG [sN k] :: I OP_STORE [x] :: cparams (S k) l end) k l
+            = map CI (pcodeP k l)).
+  { induction l as [|x l IH]; intros k; [reflexivity|]. cbn [pcodeP map]. rewrite IH. reflexivity. }
+  rewrite E1, E2. destruct (cblockT path (S d) None body st) as [cb st1]. cbv zeta. unfold ftail.
+  destruct (ends_in_ret cb); [now rewrite app_nil_r|reflexivity].
+Qed.
+End FnCode.
+
+(* ================================================================ `ends_in_ret` of the compiler vs the source *)
+Definition ret_item (it : citem) : bool := match it with CI i => (op i =? OP_RET)%N | _ => false end.
+
+Lemma resolve_snoc_CI : forall F S l idx i, resolve F S idx (l ++ [CI i]) = resolve F S idx l ++ [CI i].
+Proof.
+  intros F S. induction l as [|it l IH]; intros idx i; [reflexivity|].
+  destruct it; cbn [app resolve]; now rewrite IH.
+Qed.
+
+Lemma sitems_snoc : forall FT il B c lr sl st, ok_stmt FT il B st = true ->
+  exists pre last, sitems c lr sl st = pre ++ [last] /\ (ret_item last = true -> is_ret st = true).
+Proof.
+  intros FT il B c lr sl st H. destruct st; try discriminate.
+  - eexists. eexists. split; [cbn [sitems]; reflexivity|discriminate].
+  - exists (map CI (pcode (S c) e) ++ [I OP_BIN_OP_ASSIGN [binop_sym o ++ [61%N]; x]]), (I OP_VOID []).
+    split; [cbn [sitems]; now rewrite <- app_assoc|discriminate].
+  - exists (map CI (xcode c e) ++ [I OP_PRINTN [s_star]]), (I OP_VOID []).
+    split; [cbn [sitems]; now rewrite <- app_assoc|discriminate].
+  - eexists. eexists. split; [cbn [sitems]; reflexivity|discriminate].
+  - eexists. eexists. split; [cbn [sitems]; reflexivity|discriminate].
+  - rewrite sitems_SIf. cbv zeta. eexists. exists (I OP_DONE []). split; [|discriminate].
+    rewrite !app_assoc. reflexivity.
+  - rewrite sitems_SIfElse. cbv zeta. eexists. exists (I OP_DONE []). split; [|discriminate].
+    rewrite app_comm_cons. rewrite !app_assoc. reflexivity.
+  - rewrite sitems_SIfElif. cbv zeta. eexists. exists (I OP_DONE []). split; [|discriminate].
+    rewrite app_comm_cons. rewrite !app_assoc. reflexivity.
+  - rewrite sitems_SWhile. cbv zeta.
+    match goal with |- context [resolve ?F0 ?S0 ?i0 (?l0 ++ [I ?o0 ?a0])] =>
+      change (resolve F0 S0 i0 (l0 ++ [I o0 a0])) with (resolve F0 S0 i0 (l0 ++ [CI (mkI o0 a0)])) end.
+    rewrite resolve_snoc_CI. eexists. eexists. split; [rewrite !app_assoc; reflexivity|discriminate].
+  - destruct name as [x|]; [|discriminate]. destruct collide; [discriminate|]. rewrite sitems_SFrom. cbv zeta.
+    eexists. exists (I OP_DELETE_NAME_SCOPED [x; lregn (S lr)]). split; [|discriminate].
+    rewrite !app_assoc. reflexivity.
+  - exists [], (CBrk (match sl with Some n => n | None => 0 end)). split; [reflexivity|discriminate].
+  - exists [], (CCont (match sl with Some n => n | None => 0 end)). split; [reflexivity|discriminate].
+  - destruct e as [e|]; [|discriminate]. eexists. eexists. split; [cbn [sitems]; reflexivity|reflexivity].
+Qed.
+
+Lemma ends_ret_snoc : forall l st, ends_ret (l ++ [st]) = is_ret st.
+Proof.
+  induction l as [|x l IH]; intros st; [reflexivity|]. cbn [app]. destruct l as [|y l]; [reflexivity|].
+  change (ends_ret (x :: (y :: l) ++ [st])) with (ends_ret ((y :: l) ++ [st])). apply IH.
+Qed.
+Lemma bitems_app : forall c lr sl l1 l2, bitems c lr sl (l1 ++ l2) = bitems c lr sl l1 ++ bitems c lr sl l2.
+Proof. induction l1 as [|x l IH]; intros l2; [reflexivity|]. cbn [app bitems]. now rewrite IH, app_assoc. Qed.
+Lemma ok_block_snoc : forall FT il B l st, ok_block FT il B (l ++ [st]) = true -> exists B', ok_stmt FT il B' st = true.
+Proof.
+  intros FT il. intros B l. revert B. induction l as [|x l IH]; intros B st H; cbn [app ok_block] in H.
+  - apply Bool.andb_true_iff in H as [H _]. eauto.
+  - apply Bool.andb_true_iff in H as [_ H]. eauto.
+Qed.
+
+Lemma ends_in_ret_body : forall FT B c lr body, ok_block FT false B body = true ->
+  ends_in_ret (bitems c lr None body) = true -> ends_ret body = true.
+Proof.
+  intros FT B c lr body Hok H.
+  destruct (rev body) as [|st rl] eqn:E.
+  - apply (f_equal (@rev stmt)) in E. rewrite rev_involutive in E. subst body. discriminate.
+  - apply (f_equal (@rev stmt)) in E. rewrite rev_involutive in E. cbn [rev] in E. subst body.
+    rewrite ends_ret_snoc. destruct (ok_block_snoc _ _ _ _ _ Hok) as [B' Hst].
+    destruct (sitems_snoc FT false B' c lr None st Hst) as (pre & last & Es & Hl). apply Hl.
+    rewrite bitems_app in H. cbn [bitems] in H. rewrite app_nil_r, Es, app_assoc in H.
+    unfold ends_in_ret in H. rewrite rev_app_distr in H. cbn [rev app] in H. destruct last; [exact H|discriminate|discriminate].
+Qed.
+
+(* ================================================================ modules: function definitions, then the main code *)
+Definition def_stmt (d : str * (list str * list stmt)) : stmt := SAssign (fst d) (EFn (fst (snd d)) (snd (snd d))).
+
+(* the compiled code of a function *)
+Definition fcode_of (ps : list str) (body : list stmt) : list instr :=
+  pcodeP 0 ps ++ strip (bitems 1 0 None body) ++ strip (ftail (bitems 1 0 None body)).
+
+(* every function of the table is closure-free and in the fragment *)
+Definition fn_ok (d : str * (list str * list stmt)) : Prop :=
+  let '(f, (ps, body)) := d in
+  src_nameb f = true /\ NoDup ps /\ forallb src_nameb ps = true /\ ok_block [] false (rev ps) body = true /\
+  free_vars ps body = [] /\ small (1 + 2 * length (fcode_of ps body) + 8).
+
+Section Module.
+Variable path : str.
+
+Fixpoint dfbuf (k : nat) (FT : ftab) : list (str * list instr) :=
+  match FT with [] => [] | (f, (ps, body)) :: t => (fn_name path k, fcode_of ps body) :: dfbuf (S k) t end.
+Fixpoint dcode (k : nat) (FT : ftab) : list instr :=
+  match FT with [] => [] | (f, _) :: t => mkI OP_MAKE_FUNCTION [fn_name path k] :: mkI OP_STORE [f] :: dcode (S k) t end.
+
+Lemma dcode_length : forall FT k, length (dcode k FT) = 2 * length FT.
+Proof. induction FT as [|[f r] t IH]; intros k; cbn [dcode length]; [reflexivity|]. rewrite IH. lia. Qed.
+
+Lemma cstmt_SAssign : forall c sl x e st, cstmt path c sl (SAssign x e) st =
+  let '(ce, st) := cexpr path c e st in (ce ++ [I OP_STORE [x]], st).
+Proof. reflexivity. Qed.
+
+Lemma cblock0_defs : forall FT main st, Forall fn_ok FT -> lreg st = 0 ->
+  cblock0 path (map def_stmt FT ++ main) st =
+  (let '(cm, st') := cblock0 path main {| fid := fid st + length FT; lreg := 0; fbuf := fbuf st ++ dfbuf (fid st) FT |} in
+   (map CI (dcode (fid st) FT) ++ cm, st')).
+Proof.
+  induction FT as [|[f [ps body]] t IH]; intros main st HF Hlr.
+  - cbn [map app dfbuf dcode length]. rewrite Nat.add_0_r, app_nil_r. destruct st as [fi lr fb]. cbn [lreg fid fbuf] in *. subst lr.
+    destruct (cblock0 path main {| fid := fi; lreg := 0; fbuf := fb |}); reflexivity.
+  - pose proof (Forall_inv HF) as (Hf & Hnd & Hsrc & Hok & Hfv & Hsm). pose proof (Forall_inv_tail HF) as HF'.
+    cbn [map app cblock0 def_stmt fst snd]. match goal with |- ?G => idtac G end. rewrite cstmt_SAssign, cexpr_EFn_eq.
+    rewrite (cblockT_ok path 1 body [] false (rev ps) None st Hok). rewrite Hlr. cbv zeta.
+    rewrite Hfv. rewrite IH by (try exact HF'; reflexivity). cbn [fid lreg fbuf].
+    replace (fid st + length ((f, (ps, body)) :: t)) with (S (fid st) + length t) by (cbn [length]; lia).
+    cbn [dfbuf dcode map]. unfold fcode_of. rewrite !strip_app, strip_map_CI. rewrite <- !app_assoc. cbn [app].
+    destruct (cblock0 path main _); reflexivity.
+Qed.
+End Module.
